@@ -19,7 +19,8 @@ vocabulary of `xmp_get_module_info`):
   `what`-byte flags and effect bytes, with the 16-bit length word and arbitrary following bytes.
 * **XM pattern-cell codec** — `C19_xm_cell_codec` / `C19_xm_cells_codec`: unpacked cells and packed cells
   with every superset of the needed mask bits, opaque effect and volume-column-effect bytes.
-* **IT field codecs** — `C19_it_field_codecs_partial` (see below for what is missing).
+* **IT field codecs** — `C19_it_field_codecs_partial`; **IT sample compression** — `C19_it_compress_block_partial`
+  (see below for what is missing).
 * PCM storage: `C19_pcm_sign8_involutive`, `C19_pcm_sign16_involutive`, `C19_pcm_delta8`, `C19_pcm_delta16`
   (stereo block ↔ interleaved conversion is not proved).
 
@@ -113,6 +114,21 @@ theorem C19_it_field_codecs_partial :
     (∀ v, 1 ≤ v → v ≤ 65 → It.decVol (u8 (v - 1)).toNat = v) ∧
     (∀ i, i < 256 → (u8 i).toNat = i) :=
   ⟨fun _ fade h hn => It.decNote_encNote h hn fade, fun _ h1 h2 => It.decVol_encVol h1 h2, fun _ h => It.ins_byte h⟩
+
+/-- **IT 2.14 / 2.15 sample compression, one block, bit level** (8- and 16-bit, single and double delta): the
+model of `itsex_decompress8/16` (all code widths, width-change codes, both integrators) decodes the bit
+stream of the writer's widest-code encoder back to the samples.  Missing for the full
+`Sex.decompress (Sex.compress raw) = raw`: bits ↔ bytes packing with zero padding, the 16-bit block length
+framing and the multi-block / stereo loop, and the width-switching choices of the encoder (`wsel`); all of
+these are exercised against the real `itsex.c` by the oracle on every run (multi-block samples included). -/
+theorem C19_it_compress_block_partial (is16 it215 : Bool) (xs : List Nat)
+    (hx : ∀ x ∈ xs, x < (It.Sex.cfg is16).M) (i fuel : Nat) (hf : xs.length + 1 ≤ fuel) (rest : List Bool) :
+    It.Sex.decBlock (It.Sex.cfg is16) it215 fuel xs.length { left := (It.Sex.cfg is16).W }
+        (It.Sex.encDeltas (It.Sex.cfg is16) (fun _ => 0)
+          (It.Sex.deltas (It.Sex.cfg is16) it215 xs 0 0) i (It.Sex.cfg is16).W ++ rest) = some xs :=
+  It.Sex.decBlock_encDeltas_widest is16 it215 xs hx i fuel hf rest
+
+example : ∀ x ∈ [0, 255, 128, 7, 7, 200], x < (It.Sex.cfg false).M := by decide
 
 /-! ## PCM -/
 
